@@ -382,9 +382,31 @@ def make_case(rng, big=False):
             'ts': _thresholds(rng, x, cls), 'ladder': _ladder(rng, x)}
 
 
+def long_case(rng):
+    """Tens of thousands of points (a full trace handed to the clustering directly): unit gaps, with the few large gaps
+    sitting on, just before or just after multiples of 4096 - the seams of any blocked / vectorised evaluation."""
+    n = int(rng.integers(16500, 40000))
+    if rng.random() < 0.5:
+        n = 4096 * int(rng.integers(5, 10)) + int(rng.integers(-1, 2))
+    gaps = np.ones(n - 1, dtype=float)
+    big = float(rng.integers(200, 2000))
+    for s in range(4096, n - 1, 4096):
+        if rng.random() < 0.7:
+            gaps[s - 1 + int(pick_([0, 0, 0, -1, 1], rng))] = big * float(rng.integers(1, 4))   # gaps[i] = x[i+1] - x[i]
+    for _ in range(int(rng.integers(0, 3))):
+        gaps[int(rng.integers(0, n - 1))] = big
+    x = np.concatenate(([0.0], np.cumsum(gaps))) + float(rng.integers(0, 1000))
+    L = float(x[-1] - x[0])
+    ts = [big / L, 0.5 * big / L, 2.0 * big / L]
+    pts = np.ascontiguousarray(np.column_stack((x, rng.integers(0, 10, n).astype(float))))
+    return {'points': pts, 'class': 'long-input', 'layout': pick_(['C', 'i64', 'C'], rng), 'ts': ts, 'ladder': []}
+
+
 def cases(rng, tier, shard, nshards):
     total = META['quick_cases'] if tier == 'quick' else META['thorough_cases']
     count = shard_count(total, shard, nshards)
+    if shard < 4 or tier == 'thorough':
+        yield long_case(rng)
     for _ in range(count):
         yield make_case(rng, big=(tier == 'thorough' and rng.random() < 0.1))
 
